@@ -1,0 +1,21 @@
+//go:build verif
+
+// Constructors used only by the deterministic-simulation harness (build tag verif).
+package transaction
+
+import (
+	configapi "github.com/onosproject/onos-api/go/onos/config/v3"
+	"github.com/onosproject/onos-config/pkg/pluginregistry"
+	"github.com/onosproject/onos-config/pkg/southbound/gnmi"
+	"github.com/onosproject/onos-config/pkg/store/topo"
+	configurationstore "github.com/onosproject/onos-config/pkg/store/v3/configuration"
+	transactionstore "github.com/onosproject/onos-config/pkg/store/v3/transaction"
+)
+
+func NewReconcilerForVerif(n configapi.NodeID, t transactionstore.Store, c configurationstore.Store, conns gnmi.ConnManager, tp topo.Store, p pluginregistry.PluginRegistry) *Reconciler {
+	return &Reconciler{nodeID: n, transactions: t, configurations: c, conns: conns, topo: tp, plugins: p}
+}
+func NewWatcherForVerif(t transactionstore.Store) *Watcher { return &Watcher{transactions: t} }
+func NewConfigurationWatcherForVerif(c configurationstore.Store) *ConfigurationWatcher {
+	return &ConfigurationWatcher{configurations: c}
+}
